@@ -25,8 +25,12 @@ pub fn replay(cases: &str, verdicts: &str) {
         if sc_log2 != 0 && v.cases % 3 != 0 { continue; }
         let sc = 2f64.powi(sc_log2);
         let scl = if sc_log2 == 0 { "" } else if sc_log2 < 0 { " tiny-scale" } else { " huge-scale" };
-        let exp: Vec<f64> = f64s(&c["x"]).iter().map(|t| t * sc).collect();
-        let x0: Vec<f64> = f64s(&cfg["x0"]).iter().map(|t| t * sc).collect();
+        let mut exp: Vec<f64> = f64s(&c["x"]).iter().map(|t| t * sc).collect();
+        let mut x0: Vec<f64> = f64s(&cfg["x0"]).iter().map(|t| t * sc).collect();
+        // an inert coordinate (no gradient ever) is put at a magnitude far beyond the others: it must stay, the others must move
+        let inert = cfg["inert"].as_u64().unwrap_or(0) as usize;
+        if inert > 0 && sc_log2 == 0 { x0[inert - 1] = -(2f64.powi(55)); exp[inert - 1] = -(2f64.powi(55)); }
+        if inert > 0 && sc_log2 != 0 { continue; }
         let converged = c["converged"].as_bool().unwrap();
         let evals = Cell::new(0usize);
         let opt = cfg["opt"].as_str().unwrap();
@@ -63,7 +67,7 @@ pub fn replay(cases: &str, verdicts: &str) {
             let g = run();
             let n_evals = evals.get();
             let g2 = { evals.set(0); run() };
-            let class = format!("{}{} k{} {}", opt, if opt == "sgd" { format!(" {}{}", if num(&cfg["mu"]) == 0.0 { "plain" } else { "momentum" }, if cfg["nesterov"].as_bool().unwrap() { "+nesterov" } else { "" }) } else { format!(" eps{}{}{}", if num(&cfg["eps"]) == 0.0 { "=0" } else { ">0" }, if cfg["hinge"].as_bool().unwrap_or(false) { " one-sided" } else { "" }, if c["zero_grad"].as_bool().unwrap_or(false) { " zero-gradient-step" } else { "" }) },
+            let class = format!("{}{} k{} {}", opt, if opt == "sgd" { format!(" {}{}", if num(&cfg["mu"]) == 0.0 { "plain" } else { "momentum" }, if cfg["nesterov"].as_bool().unwrap() { "+nesterov" } else { "" }) } else { format!(" eps{}{}{}", if num(&cfg["eps"]) == 0.0 { "=0" } else { ">0" }, if cfg["hinge"].as_bool().unwrap_or(false) { " one-sided" } else { "" }, if c["zero_grad"].as_bool().unwrap_or(false) { " zero-gradient-step" } else { "" }) + if inert > 0 { " inert-huge-coordinate" } else { "" } + if k >= 50 { " long-horizon" } else { "" } },
                                 if k == 0 { "=0" } else if k == 1 { "=1" } else { ">1" }, if budget == k { "budget=k" } else { "budget>k after convergence" }) + scl;
             let ok = g.as_ref().map(|g| rel_close_at(g, &exp, 40, sc)).unwrap_or(false);
             v.check(ok, "k-th iterate", &class, &json!({"case": c, "maxsteps": budget, "scale_log2": sc_log2}), json!(g.as_ref().map(|g| fjs(g))));
@@ -107,6 +111,22 @@ fn lm_case(v: &mut Verdicts, c: &Value) {
             }
             None => v.check(false, "LM reaches least squares", &format!("{} {}", class, sname), c, json!("panic")),
         }
+    }
+    // default stopping tolerances from a start whose norm is a thousand times the solution's: the small-step test must follow the
+    // CURRENT parameters (a threshold frozen at the start would stop 1e-3 early)
+    {
+        let start: Vec<f64> = (0..p).map(|i| if i % 2 == 0 { 1000.0 } else { -1000.0 }).collect();
+        let lm = LM::default();
+        let g = guard(|| lm.optimize(|pr: &[Var], d: &[&[f64]]| {
+            let t = d[0][0];
+            let mut s = pr[0] + 0.0;
+            let mut pw = t;
+            for i in 1..pr.len() { s = s + pr[i] * pw; pw *= t; }
+            s
+        }, &start, &[&x, &y], 200));
+        let scale = coef.iter().fold(1.0f64, |m, t| m.max(t.abs()));
+        let dev = g.as_ref().map(|(th, _)| th.iter().zip(&coef).map(|(a, b)| (a - b).abs()).fold(0.0f64, f64::max) / scale);
+        v.check(dev.map(|d| d <= 2e-5).unwrap_or(false), "LM reaches least squares", &format!("{} huge-start default-tolerances", class), c, json!({"max_rel_dev": dev}));
     }
 }
 
